@@ -144,6 +144,7 @@ func (b *Broker) subscribe(ctx context.Context, topic string) bool {
 
 func (b *Broker) response(ctx context.Context, id string) {
 	if responder, ok := b.responders.Pop(id); ok {
+		verifPoint("response.afterPop", id)
 		responder := responder.(chan map[string][]Message)
 		if !b.send(ctx, id, responder) {
 			if !b.responders.SetIfAbsent(id, responder) {
@@ -183,6 +184,7 @@ func (b *Broker) message(ctx context.Context) map[string][]Message {
 	}
 	responder := make(chan map[string][]Message, 1)
 	if !b.send(ctx, id, responder) {
+		verifPoint("poll.beforeRegister", id)
 		b.responders.Upsert(id, responder, func(exist bool, valueInMap interface{}, newValue interface{}) interface{} {
 			if exist {
 				valueInMap.(chan map[string][]Message) <- nil
@@ -194,6 +196,7 @@ func (b *Broker) message(ctx context.Context) map[string][]Message {
 			defer cancel()
 			select {
 			case <-ctx.Done():
+				verifPoint("poll.timeout", id)
 				go b.doHeartBeat(context.Background(), id)
 				return map[string][]Message{}
 			case result := <-responder:
@@ -207,6 +210,7 @@ func (b *Broker) message(ctx context.Context) map[string][]Message {
 func (b *Broker) Unicast(ctx context.Context, data interface{}, topic string, id string, from string) bool {
 	if topics, ok := b.messages.Load(id); ok {
 		if cache, ok := topics.(*sync.Map).Load(topic); ok && cache != nil {
+			verifPoint("publish.beforeAppend", id)
 			cache.(*MessageCache).Append(Message{Data: data, From: from})
 			b.response(ctx, id)
 			return true
@@ -229,6 +233,7 @@ func (b *Broker) Broadcast(ctx context.Context, data interface{}, topic string, 
 		id := key.(string)
 		topics := value.(*sync.Map)
 		if cache, ok := topics.Load(topic); ok && cache != nil {
+			verifPoint("publish.beforeAppend", id)
 			cache.(*MessageCache).Append(Message{Data: data, From: from})
 			b.response(ctx, id)
 			result[id] = true
